@@ -140,8 +140,8 @@ func (r *runner) shrink(c *fedlab.Case, v *fedlab.Verdict) string {
 	var steps []string
 	best, bestV := c, v
 	// 1. knobs
-	for i := len(fedlab.AllKnobsV2) - 1; i >= 0 && time.Now().Before(deadline); i-- {
-		kn := fedlab.AllKnobsV2[i]
+	for i := len(fedlab.AllKnobsV3) - 1; i >= 0 && time.Now().Before(deadline); i-- {
+		kn := fedlab.AllKnobsV3[i]
 		if !best.Knobs[kn] {
 			continue
 		}
